@@ -25,7 +25,7 @@ def unhex(s):
     return struct.unpack(">d", bytes.fromhex(s))[0]
 
 
-def gen_system(rng, natoms, nshells, necps, lmax=1, far=False):
+def gen_system(rng, natoms, nshells, necps, lmax=1, far=False, screened=False):
     """random arrangement of shells and ECPs over atoms; every atom carries at least one of them"""
     while True:
         sh = [rng.randrange(natoms) for _ in range(nshells)]
@@ -34,7 +34,7 @@ def gen_system(rng, natoms, nshells, necps, lmax=1, far=False):
             break
     pos = []
     while len(pos) < natoms:
-        p = tuple(round(rng.uniform(-2.2, 2.2) * (3.0 if far and len(pos) == natoms - 1 else 1.0), 3) for _ in range(3))
+        p = tuple(round(rng.uniform(-2.2, 2.2) * (3.0 if far and len(pos) == natoms - 1 else 1.0) * (3.5 if screened else 1.0), 3) for _ in range(3))
         if all(sum((a - b) ** 2 for a, b in zip(p, q)) > 1.2 for q in pos):
             pos.append(p)
     lines = ["reset", "atoms %d" % natoms, "geom 0 " + " ".join(repr(x) for p in pos for x in p)]
@@ -43,7 +43,14 @@ def gen_system(rng, natoms, nshells, necps, lmax=1, far=False):
         l = rng.choice([0, 0, 1, 1, 1, 2] if lmax >= 2 else [0, 1, 1])
         l = min(l, lmax)
         np_ = rng.choice([1, 1, 2])
-        prims = " ".join("%r %r" % (round(10 ** rng.uniform(-0.4, 0.7), 4), round(rng.choice([-1, 1]) * rng.uniform(0.3, 1.2), 4)) for _ in range(np_))
+        if screened:
+            # atoms 7-10 bohr apart carrying tight AND diffuse shells (in either order): the shell/ECP distance screen of
+            # compute_integrals keeps some (shell, ECP) pairs of an atom and drops others
+            np_ = 1
+            ex = rng.choice([10 ** rng.uniform(1.2, 1.9), 10 ** rng.uniform(-1.0, -0.4), 10 ** rng.uniform(-0.2, 0.5)])
+            prims = "%r %r" % (round(ex, 4), round(rng.choice([-1, 1]) * rng.uniform(0.3, 1.2), 4))
+        else:
+            prims = " ".join("%r %r" % (round(10 ** rng.uniform(-0.4, 0.7), 4), round(rng.choice([-1, 1]) * rng.uniform(0.3, 1.2), 4)) for _ in range(np_))
         lines.append("shell %d %d %d %s" % (a, l, np_, prims))
         shells.append((a, l))
     for a in ec:
@@ -217,6 +224,9 @@ def main(ctx):
     for i in range(n_rand):
         na = rng.randint(1, 4)
         systems.append(gen_system(rng, na, rng.randint(max(1, na - 2), 6 if not quick else 4), rng.randint(1, 3), lmax=2 if i % 5 == 0 else 1, far=(i % 7 == 3)))
+    for i in range(8 if quick else 30):
+        na = rng.randint(2, 3)
+        systems.append(gen_system(rng, na, rng.randint(na + 1, 6), rng.randint(1, 2), lmax=1, screened=True))
     with ThreadPoolExecutor(16) as ex:
         results = list(ex.map(one_system, [(drv, s, 2) for s in systems]))
     corr_fail, prop_fail = [], []
